@@ -143,6 +143,30 @@ def r4_issuance(ctx):
     ctx.rules["R3w"].template = "R4 (burn) " + ctx.rules["R3w"].template
 
 
+def r6_issued_is_recorded(ctx):
+    """'the tokens held in coins never exceed the liquidity the pool records': what a deposit hands out must be what the pool's record GREW by.  The code hands out
+    the return value of PoolState::deposit; melstructs 0.3.3 adds that value to `liqs` with a saturating add and returns it unclamped, so once `liqs` saturates the
+    depositor receives more than was recorded (D31: custom tokens are free to create in any amount, so 2^120-sized deposits need no faucet).  Necessary: the amount
+    distributed is read off the pool's record (liqs after − liqs before), or the saturation case is refused."""
+    r = ctx.rule("R6", "the liquidity distributed by a deposit is the growth of the pool's recorded liquidity (liqs after − liqs before), not an unclamped return value", positional=False)
+    b = ctx.prog.body("melstf::state::melmint::process_deposits_for_single_pool")
+    if b is None:
+        r.undecided("issued/recorded-growth", "process_deposits_for_single_pool not found")
+        return
+    deps = [(c, bi, e) for c in ctx.prog.all_nested(b) for bi, e in q.call_exprs(c, "PoolState::deposit")]
+    if not deps:
+        r.undecided("issued/recorded-growth", "no PoolState::deposit call")
+        return
+    reads_liqs = any(".liqs" in sig(e_) for c in ctx.prog.all_nested(b) for bi_, e_ in q.all_call_exprs(c)) or any(q.field_reads(c, "melstructs::PoolState", "liqs") for c in ctx.prog.all_nested(b))
+    sat_guard = [cn for c in ctx.prog.all_nested(b) for e_, cn, b_ in q.cmp_atoms(c) if "MAX" in cn and ("liqs" in cn or "deposit(" in cn)]
+    if reads_liqs or sat_guard:
+        r.undecided("issued/recorded-growth", "the worker reads the pool's liqs / compares with MAX: whether the distributed amount is the recorded growth is not decided")
+    else:
+        r.violation("issued/recorded-growth", "the deposit worker distributes the return value of PoolState::deposit and never looks at the pool's recorded liquidity: deposit adds that value to `liqs` with a "
+                    "saturating add (melstructs 0.3.3) and returns it unclamped, so two deposits of 2^120 units of a (freely created) custom token leave liqs at 2^128−1 while the coins hold 2^120 + 2^128−1 tokens",
+                    deps[0][0].where(deps[0][1]))
+
+
 def r5_tokens_only_from_deposits(ctx):
     r = ctx.rule("R5", "coins in a pool's liquidity-token denomination come into being only through a settled deposit: every other transaction is balanced per denomination, "
                        "and a transaction kind that is exempt from balancing must not be able to name a Custom denomination in its outputs", positional=False)
@@ -184,4 +208,4 @@ def shared(ctx):
     core.import_rules(ctx, [c15.r1_selection_atoms, c15.r2_canonical_keys, c15.r5_only_selected, c15.r6_stage_order], "X15")   # R6: each pool is processed once per block (keys sorted, then deduplicated): a pool processed twice burns the same tokens twice against its recorded liquidity
 
 
-RULES = [r1_builtins_first, r2_create_builtins, r3_no_deletion, r4_issuance, r5_tokens_only_from_deposits, shared]
+RULES = [r1_builtins_first, r2_create_builtins, r3_no_deletion, r4_issuance, r5_tokens_only_from_deposits, r6_issued_is_recorded, shared]
